@@ -12,7 +12,11 @@ var WideSizes = []int{1, 2, 3, 4, 5, 6, 7, 8, 9, 10, 11, 12, 13, 14, 15, 16, 17,
 
 // WideKinds are the list-like constructs of the language.
 var WideKinds = []string{"project", "project-names", "extend", "extend-unnamed", "summarize-aggs", "summarize-keys", "sort", "in", "call-args", "strcat", "and", "or", "plus", "minus",
-	"join-conds", "render-props", "lets", "let-chain", "statements", "wheres", "extends", "parens", "qualified", "neg-parens", "not-nest", "iff-nest", "index-nest", "joins"}
+	"join-conds", "render-props", "lets", "let-chain", "statements", "wheres", "extends", "parens", "qualified", "neg-parens", "not-nest", "iff-nest", "index-nest", "joins",
+	"in-consts", "let-uses", "where-consts"}
+
+// WideSizesBig continues WideSizes up to a few thousand elements.
+var WideSizesBig = []int{512, 999, 1000, 1001, 1023, 1024, 1025, 2047, 2048, 2049, 2100, 4097}
 
 func col(i int) *E { return Name(fmt.Sprintf("c%d", i)) }
 
@@ -76,6 +80,28 @@ func Wide(kind string, n int) *Program {
 			e.Kids = append(e.Kids, Num(fmt.Sprint(i)))
 		}
 		return q(&Op{K: "where", X: e})
+	case "in-consts":
+		// the built-in constants and a bound name, n times
+		e := In(Name("x"))
+		for i := 0; i < n; i++ {
+			e.Kids = append(e.Kids, Name([]string{"null", "true", "false", "v"}[i%4]))
+		}
+		return &Program{Stmts: []*Stmt{{LetName: id("v"), LetX: Num("7")}, {Pipe: &Pipe{Table: Ident{Name: "T"}, Ops: []*Op{{K: "where", X: e}}}}}}
+	case "let-uses":
+		// one binding used n times over several operators
+		pr := &Program{Stmts: []*Stmt{{LetName: id("v"), LetX: Un("-", Num("1"))}, {LetName: id("w"), LetX: StrLit("s", false)}}}
+		p := &Pipe{Table: Ident{Name: "T"}}
+		for i := 0; i < n; i += 4 {
+			p.Ops = append(p.Ops, &Op{K: "where", X: Bin("or", Bin(">", Bin("+", Name("v"), col(i)), Name("v")), Bin("==", Name("w"), Call("strcat", Name("w"), Name("w"))))})
+		}
+		pr.Stmts = append(pr.Stmts, &Stmt{Pipe: p})
+		return pr
+	case "where-consts":
+		var ops []*Op
+		for i := 0; i < n; i += 3 {
+			ops = append(ops, &Op{K: "where", X: Bin("or", Bin("==", col(i), Name("true")), Call("isnull", Call("iff", Name("false"), Name("null"), col(i))))})
+		}
+		return q(ops...)
 	case "call-args":
 		e := Call("f")
 		for i := 0; i < n; i++ {
